@@ -73,7 +73,10 @@ class LogPublisher:
 
         brokenObservers = []
 
-        for observer in self._observers:
+        # Iterate over a copy: an observer may add or remove observers
+        # (including itself) while it is being called, which must not cause
+        # another observer to be skipped or to see the event twice.
+        for observer in list(self._observers):
             if trace is not None:
                 trace(observer)
 
